@@ -56,14 +56,26 @@ def check_welford(tr, hist, exact, where):
         bad('welford-range', f"{where}: mean {tr.mean!r} outside [min, max] of the inputs")
 
 
-def check_es(tr, hist, alpha, exact, where):
+def check_es(tr, hist, alpha, exact, where, eps=EPS):
     n = len(hist)
     hx = [F(int(v)) if isinstance(v, np.integer) else (F(v) if not isinstance(v, float) else F(float(v))) for v in hist]
     want = es_stat(hx, F(alpha))
     if tr.N != n:
         bad('es-N', f"{where}: N={tr.N} after {n} updates")
     scale = max([1] + [abs(x) for x in hx])
-    tol = 0 if exact else 4 * (n + 1) * F(EPS) * scale
+    # forward error of evaluating the recurrence in floating point, in either of its two usual forms
+    # ((1-a)*s + a*v and s + a*(v-s)): one step adds at most a few eps * (a|v| + a|s_old| + |s_new|) and earlier errors
+    # decay with (1-a).  |s| is bounded by the same smoothing applied to |v_i|.  This stays meaningful for tiny alpha, where
+    # the blanket bound eps*max|v|/alpha (C20) is vacuous, and does not demand more than either form delivers for alpha
+    # near 1 after a drop in magnitude.
+    tol = F(0)
+    if not exact:
+        a_, s_abs = F(alpha), F(0)
+        for x in hx:
+            s_new = (1 - a_) * s_abs + a_ * abs(x)
+            tol = (1 - a_) * tol + 16 * F(eps) * (a_ * abs(x) + a_ * s_abs + s_new)
+            s_abs = s_new
+        tol += F(1, 10 ** 300)
     got = tr.get()
     if (got != want) if exact else not approx(got, want, tol):
         bad('es-value', f"{where}: get()={got!r}, sum alpha(1-alpha)^(n-i) v_i = {want} ({float(want)!r})")
@@ -126,9 +138,10 @@ def run_task(task):
             walk(WelfordTracker, check_welford, alphabet, L, conv, exact, f"WelfordTracker[{name}]", counter)
         elif kind == 'es':
             alpha, alphabet, conv, exact, name = arg
-            a = alpha if exact else float(alpha)
+            a = alpha if (exact or isinstance(alpha, np.floating)) else float(alpha)
+            eps = float(np.finfo(np.float32).eps) if isinstance(a, np.float32) else EPS
             walk(lambda: ExponentialSmoothingTracker(alpha=a),
-                 lambda tr, h, ex, w: check_es(tr, h, alpha if exact else F(float(alpha)), ex, w), alphabet, L, conv, exact,
+                 lambda tr, h, ex, w: check_es(tr, h, alpha if exact else F(float(alpha)), ex, w, eps), alphabet, L, conv, exact,
                  f"ExponentialSmoothingTracker(alpha={alpha})[{name}]", counter)
         elif kind == 'es-reassign':
             # the public alpha attribute is re-assigned before the first value: the closed form for the NEW alpha must hold
@@ -174,6 +187,15 @@ def plan(tier):
     tasks.append(('es', (F(1, 4), ALPHA_A, np.float64, False, 'np.float64'), L - 1))
     tasks.append(('es', (F(1, 4), [5, 3, 250, 0], np.uint8, False, 'np.uint8'), L - 1))
     tasks.append(('es', (F(1, 2), [100, -100, 50], np.int8, False, 'np.int8'), L - 1))
+    # legal extreme smoothing parameters: non-zero alphas below eps (1 - alpha rounds to 1), alpha just below 1, and a
+    # NumPy float32 alpha (the arithmetic then happens in float32); large values so that alpha*v is of order one
+    BIG = [3e17, -1e17, 5e17, 2e17]
+    for a in (1e-17, 2.0 ** -54, 5e-324, 1 - 2.0 ** -53):
+        tasks.append(('es', (a, BIG, float, False, f'float alpha={a!r}'), 4))
+    tasks.append(('es', (np.float32(2e-8), [1e8, 3e8, -2e8], float, False, 'np.float32 alpha'), 4))
+    tasks.append(('es', (np.float32(0.25), ALPHA_A, float, False, 'np.float32 alpha'), 4))
+    for a in (1.0, 0.999, 0.5, 1e-3):       # drops and jumps in magnitude
+        tasks.append(('es', (a, [1e17, 3.0, -2.5e-3, -4e16], float, False, f'float magnitude jumps alpha={a!r}'), 4))
     tasks.append(('lin-welford', None, 2 if tier != 'thorough' else 3))
     for a1, a2 in ((F(1, 10), F(1)), (F(1, 2), F(1, 4)), (F(1), F(1, 3)), (F(0), F(1, 2))):
         tasks.append(('es-reassign', (a1, a2, ALPHA_A), 3))
